@@ -403,3 +403,145 @@ def sweep_c12(tier, seed):
             break
     return {"status": "violation" if viol else "ok", "cases": n * 3, "distinct": n * 3, "violations": viol,
             "samples": [{"seed": seed * 2003}], "kind": "bounded-native"}
+
+
+# --------------------------------------------------------------------------------------
+# C14: particles and sinks
+# --------------------------------------------------------------------------------------
+def particle_case(seed):
+    import contextlib
+    import io
+
+    import numpy as np
+    import osyris
+
+    rw = _writer()
+    rng = random.Random(seed)
+    ndim = rng.choice([1, 2, 3])
+    ncpu = rng.choice([1, 2, 3, 4])
+    unit_l, unit_d, unit_t = rng.choice([(1.0, 1.0, 1.0), (3.0e18, 1e-24, 3.0e13)])
+    tmp = tempfile.mkdtemp(prefix="c14_")
+    try:
+        octs = rw.build_tree(ndim, 2, 2, rng=rng, ncpu=ncpu, variables=["density", "pressure"])
+        counts = {c: rng.choice([0, 0, 1, 5, 40]) for c in range(1, ncpu + 1)}
+        nprng = np.random.default_rng(seed)
+        particles = {}
+        for c, n in counts.items():
+            particles[c] = {"mass": nprng.uniform(1, 2, n), "identity": nprng.permutation(1000)[:n].astype("int32") + 1000 * c,
+                            "family": nprng.integers(0, 5, n).astype("int8"), "position_x": nprng.uniform(0, 1, n),
+                            "birth": nprng.integers(0, 10**10, n).astype("int64")}
+            for d in "yz"[: ndim - 1]:
+                particles[c]["position_" + d] = nprng.uniform(0, 1, n)
+        rw.write_output(tmp, 1, octs, ndim=ndim, ncpu=ncpu, levelmin=2, levelmax=2, hydro_vars=["density", "pressure"],
+                        unit_l=unit_l, unit_d=unit_d, unit_t=unit_t, particles=particles)
+        exp = rw.expected_particles(particles, ncpu, unit_l=unit_l, unit_d=unit_d, unit_t=unit_t)
+        desc = {"seed": seed, "ndim": ndim, "ncpu": ncpu, "counts": counts}
+        sort = rng.random() < 0.5
+        with contextlib.redirect_stdout(io.StringIO()):
+            ds = osyris.RamsesDataset(1, path=tmp).load(sortby={"part": "identity"} if sort else None)
+        total = sum(counts.values())
+        if ds.meta["nparticles"] != total:
+            return {"what": "meta nparticles %s vs %d" % (ds.meta["nparticles"], total), "input": desc}
+        if total == 0:
+            if "part" in ds.keys() and any(len(np.atleast_1d(v.values if not hasattr(v, "x") else v.x.values)) != 0
+                                          for v in ds["part"].values()):
+                return {"what": "zero particles but a group with rows", "input": desc}
+            return None
+        part = ds["part"]
+        order = np.argsort(exp["identity"]) if sort else np.arange(total)
+        for name, want in exp.items():
+            if name.startswith("position_") and ndim > 1:
+                got = getattr(part["position"], name[-1]).values
+            else:
+                got = part[name].values
+            if np.asarray(got).shape != (total,) or not np.allclose(np.asarray(got, float), np.asarray(want, float)[order], rtol=1e-12):
+                return {"what": "particle variable %s differs (sorted=%s)" % (name, sort), "input": desc}
+        if str(part["mass"].unit) != str(osyris.units("g")):
+            return {"what": "mass unit %s" % part["mass"].unit, "input": desc}
+        return None
+    finally:
+        shutil.rmtree(tmp, ignore_errors=True)
+
+
+def sink_case(seed):
+    import contextlib
+    import io
+
+    import numpy as np
+    import osyris
+
+    rw = _writer()
+    rng = random.Random(seed)
+    ndim = rng.choice([1, 2, 3])
+    nsink = rng.choice([0, 1, 1, 2, 5])
+    legacy = rng.random() < 0.4
+    unit_l, unit_d, unit_t = 2.0, 3.0, 5.0
+    tmp = tempfile.mkdtemp(prefix="c14s_")
+    try:
+        octs = rw.build_tree(ndim, 2, 2, rng=rng, ncpu=1, variables=["density", "pressure"])
+        cols = ["id", "msink"] + list("xyz"[:ndim]) + ["vx", "age"]
+        vals = {c: [float(rng.randint(1, 9)) + 0.5 * k for k in range(nsink)] for c in cols}
+        if legacy:
+            units = {"id": "[1]", "msink": "[Msol]", "vx": "[km/s]", "age": "[y]"}
+            units.update({c: "[cm]" for c in "xyz"[:ndim]})
+            units["msink"] = "[g]"
+            units["age"] = "[s]"
+        else:
+            units = {"id": "1", "msink": "m", "vx": "l t**-1", "age": "t"}
+            units.update({c: "l" for c in "xyz"[:ndim]})
+        present = rng.random() < 0.85
+        rw.write_output(tmp, 1, octs, ndim=ndim, ncpu=1, levelmin=2, levelmax=2, hydro_vars=["density", "pressure"], unit_l=unit_l,
+                        unit_d=unit_d, unit_t=unit_t, sinks=vals if present else None, sink_units=units)
+        with contextlib.redirect_stdout(io.StringIO()):
+            ds = osyris.RamsesDataset(1, path=tmp).load()
+        desc = {"seed": seed, "ndim": ndim, "nsink": nsink, "legacy": legacy, "present": present}
+        if not present:
+            return None if "sink" not in ds.keys() else {"what": "no sink file but a sink group", "input": desc}
+        if nsink == 0:
+            ok = "sink" in ds.keys() and len(ds["sink"].keys()) == 0
+            return None if ok else {"what": "empty sink file should give an empty group", "input": desc}
+        sink = ds["sink"]
+        m, l, t = unit_d * unit_l ** 3, unit_l, unit_t
+        fac = {"id": 1.0, "msink": (1.0 if legacy else m), "vx": (1e5 if legacy else l / t), "age": (1.0 if legacy else t)}
+        fac.update({c: (1.0 if legacy else l) for c in "xyz"[:ndim]})
+        cgs = {"id": "dimensionless", "msink": "g", "vx": "cm/s", "age": "s", "x": "cm", "y": "cm", "z": "cm"}
+        for c in cols:
+            if c in "xyz" and ndim > 1:
+                arr = getattr(sink["position"], c)
+            else:
+                arr = sink[c]
+            got = np.atleast_1d(np.asarray(arr.to(cgs[c]).values, float))  # physical quantity in CGS
+            if got.shape != (nsink,) or not np.allclose(got, np.array(vals[c]) * fac[c], rtol=1e-10):
+                return {"what": "sink column %s: %s expected %s" % (c, got[:3], (np.array(vals[c]) * fac[c])[:3]), "input": desc}
+        return None
+    finally:
+        shutil.rmtree(tmp, ignore_errors=True)
+
+
+def replay_particles(case, model, rec):
+    for s in range(10):
+        try:
+            r = particle_case(300 + s)
+        except Exception as e:
+            r = {"what": "exception %r" % (e,), "input": {"seed": 300 + s}}
+        if r:
+            return {"reproduced": True, "input": r["input"], "observed": r["what"]}
+    return {"reproduced": False}
+
+
+def sweep_c14(tier, seed):
+    n = 12 if tier == "quick" else 200
+    viol = []
+    for name, fn in (("C14.native.particles", particle_case), ("C14.native.sinks", sink_case)):
+        for k in range(n):
+            try:
+                r = fn(seed * 3001 + k)
+            except Exception as e:
+                import traceback
+
+                r = {"what": "exception %r %s" % (e, traceback.format_exc(limit=3)), "input": {"seed": seed * 3001 + k}}
+            if r:
+                viol.append({"name": name, "input": r["input"], "observed": r["what"]})
+                break
+    return {"status": "violation" if viol else "ok", "cases": 2 * n, "distinct": 2 * n, "violations": viol,
+            "samples": [{"seed": seed * 3001}], "kind": "bounded-native"}
